@@ -524,6 +524,229 @@ pub enum W3 {
     B { x: P6 },
 }
 
+// ---- family Z: attribute combinations x enum representations; manifest-free -----------------
+// (their reference lists are taken from the *rendered declaration* by the independent parser:
+// what a declaration names is what must be imported and exported - C03's own statement)
+
+#[derive(TS)]
+#[ts(export_to = p(67), rename = n(67))]
+pub struct ZL0 {
+    pub v: i32,
+}
+
+#[derive(TS)]
+#[ts(export_to = p(68), rename = n(68))]
+pub struct ZL1 {
+    pub v: i32,
+}
+
+#[derive(TS)]
+#[ts(export_to = p(69), rename = n(69))]
+pub struct ZL2 {
+    pub v: i32,
+}
+
+#[derive(TS)]
+#[ts(export_to = p(70), rename = n(70))]
+pub struct ZL3 {
+    pub v: i32,
+}
+
+#[derive(TS)]
+#[ts(export_to = p(71), rename = n(71))]
+pub struct ZL4 {
+    pub v: i32,
+}
+
+#[derive(TS)]
+#[ts(export_to = p(72), rename = n(72))]
+pub struct ZL5 {
+    pub v: i32,
+}
+
+#[derive(TS)]
+#[ts(export_to = p(73), rename = n(73))]
+pub struct ZL6 {
+    pub v: i32,
+}
+
+#[derive(TS)]
+#[ts(export_to = p(74), rename = n(74))]
+pub struct ZL7 {
+    pub v: i32,
+}
+
+#[derive(TS)]
+#[ts(export_to = p(75), rename = n(75))]
+pub struct ZX0 {
+    pub v: i32,
+}
+
+#[derive(TS)]
+#[ts(export_to = p(76), rename = n(76))]
+pub struct ZX1 {
+    pub v: i32,
+}
+
+#[derive(TS)]
+#[ts(export_to = p(77), rename = n(77))]
+pub struct ZX2 {
+    pub v: i32,
+}
+
+#[derive(TS)]
+#[ts(export_to = p(78), rename = n(78))]
+pub struct ZX3 {
+    pub v: i32,
+}
+
+#[derive(TS)]
+#[ts(export_to = p(79), rename = n(79))]
+pub struct ZX4 {
+    pub v: i32,
+}
+
+#[derive(TS)]
+#[ts(export_to = p(80), rename = n(80))]
+pub struct ZV0 {
+    pub v: i32,
+}
+
+#[derive(TS)]
+#[ts(export_to = p(81), rename = n(81))]
+pub struct ZV1 {
+    pub v: i32,
+}
+
+#[derive(TS)]
+#[ts(export_to = p(82), rename = n(82))]
+pub struct ZV2 {
+    pub v: i32,
+}
+
+#[derive(TS)]
+#[ts(export_to = p(83), rename = n(83))]
+pub struct ZW0 {
+    pub inner: ZX0,
+}
+
+#[derive(TS)]
+#[ts(export_to = p(84), rename = n(84))]
+pub struct ZW1 {
+    pub inner: ZX1,
+}
+
+#[derive(TS)]
+#[ts(export_to = p(85), rename = n(85))]
+pub struct ZW2 {
+    pub inner: ZX2,
+}
+
+#[derive(TS)]
+#[ts(export_to = p(86), rename = n(86))]
+pub struct ZW3 {
+    pub inner: ZX3,
+}
+
+#[derive(TS)]
+#[ts(export_to = p(87), rename = n(87))]
+pub struct ZW4 {
+    pub inner: ZX4,
+}
+
+macro_rules! z_enum {
+    ($name:ident, $def:literal $(, $($attr:tt)*)?) => {
+        #[derive(TS)]
+        #[ts(export_to = p($def), rename = n($def) $(, $($attr)*)?)]
+        pub enum $name {
+            U,
+            N(ZL0),
+            Ni(#[ts(inline)] ZW0),
+            Na(#[ts(as = "ZL1")] i32),
+            Nt(#[ts(type = "number")] ZL7),
+            T(ZL2, #[ts(inline)] ZW1),
+            Tai(ZL3, #[ts(as = "ZW2", inline)] ZL7),
+            S {
+                a: ZL4,
+                #[ts(inline)]
+                b: ZW3,
+                #[ts(as = "ZL5")]
+                c: i32,
+                #[ts(type = "string")]
+                d: ZL7,
+                #[ts(skip)]
+                e: ZL7,
+                #[ts(optional)]
+                f: Option<ZL6>,
+                #[ts(flatten)]
+                g: ZW4,
+            },
+            #[ts(untagged)]
+            Vu(ZV0),
+            #[ts(untagged)]
+            Vus {
+                x: ZV1,
+            },
+            #[ts(as = "ZV2")]
+            Va(i32),
+            #[ts(type = "bigint")]
+            Vt(ZL7),
+            #[ts(skip)]
+            Vs(ZL7),
+        }
+    };
+}
+
+z_enum!(Z0, 88);
+
+z_enum!(Z1, 89, tag = "t");
+
+z_enum!(Z2, 90, tag = "t", content = "c");
+
+z_enum!(Z3, 91, untagged);
+
+#[derive(TS)]
+#[ts(export_to = p(92), rename = n(92))]
+pub struct ZS0 {
+    pub a: ZL4,
+    #[ts(inline)]
+    pub b: ZW3,
+    #[ts(as = "ZL5")]
+    pub c: i32,
+    #[ts(type = "string")]
+    pub d: ZL7,
+    #[ts(skip)]
+    pub e: ZL7,
+    #[ts(optional)]
+    pub f: Option<ZL6>,
+    #[ts(flatten)]
+    pub g: ZW4,
+    #[ts(as = "ZW0", inline)]
+    pub h: ZL7,
+}
+
+#[derive(TS)]
+#[ts(export_to = p(93), rename = n(93))]
+pub struct ZS1(
+    pub ZL0,
+    #[ts(inline)] pub ZW0,
+    #[ts(as = "ZW2", inline)] pub ZL7,
+    #[ts(skip)] pub ZL7,
+    #[ts(type = "null")] pub ZL7,
+    #[ts(as = "ZL1")] pub i32,
+);
+
+#[derive(TS)]
+#[ts(export_to = p(94), rename = n(94))]
+pub struct ZS2(#[ts(as = "ZW1", inline)] pub ZL7);
+
+#[derive(TS)]
+#[ts(export_to = p(95), rename = n(95), as = "ZW3")]
+pub enum ZS3 {
+    A,
+    B(ZL7),
+}
+
 // ---- family L: literal attributes, as in ordinary user code -------------------------------
 
 #[derive(TS)]
@@ -556,7 +779,7 @@ pub struct L3 {
 pub struct L4(pub String);
 
 /// Number of definitions that read the table (`p(i)` / `n(i)`).
-pub const DER_DEFS: usize = 67;
+pub const DER_DEFS: usize = 96;
 
 #[derive(Clone, Copy, Debug)]
 pub enum Place {
@@ -660,7 +883,38 @@ pub const W1_: usize = 76;
 pub const W2_: usize = 77;
 pub const W5_: usize = 78;
 pub const W3_: usize = 79;
-pub const DER_HANDLES: usize = 80;
+/// handles from here on take their reference lists from their rendered declaration
+pub const AUTO_FROM: usize = 80;
+pub const ZL0_: usize = 80;
+pub const ZL1_: usize = 81;
+pub const ZL2_: usize = 82;
+pub const ZL3_: usize = 83;
+pub const ZL4_: usize = 84;
+pub const ZL5_: usize = 85;
+pub const ZL6_: usize = 86;
+pub const ZL7_: usize = 87;
+pub const ZX0_: usize = 88;
+pub const ZX1_: usize = 89;
+pub const ZX2_: usize = 90;
+pub const ZX3_: usize = 91;
+pub const ZX4_: usize = 92;
+pub const ZV0_: usize = 93;
+pub const ZV1_: usize = 94;
+pub const ZV2_: usize = 95;
+pub const ZW0_: usize = 96;
+pub const ZW1_: usize = 97;
+pub const ZW2_: usize = 98;
+pub const ZW3_: usize = 99;
+pub const ZW4_: usize = 100;
+pub const Z0_: usize = 101;
+pub const Z1_: usize = 102;
+pub const Z2_: usize = 103;
+pub const Z3_: usize = 104;
+pub const ZS0_: usize = 105;
+pub const ZS1_: usize = 106;
+pub const ZS2_: usize = 107;
+pub const ZS3_: usize = 108;
+pub const DER_HANDLES: usize = 109;
 
 use Place::{Lit, RenameOnly, Table as Tb};
 
@@ -782,6 +1036,36 @@ pub const MANIFEST: [DerInfo; DER_HANDLES] = [
     DerInfo { label: "W5", place: Tb(65), import_refs: &[P2_], reach_refs: &[P2_] },
     // type W3 = { "t": "U" } | { "t": "B", x: P6 };   (P5 is not rendered, so not needed)
     DerInfo { label: "W3", place: Tb(66), import_refs: &[P6_], reach_refs: &[P6_] },
+    // family Z (manifest-free, see AUTO_FROM)
+    DerInfo { label: "ZL0", place: Tb(67), import_refs: &[], reach_refs: &[] },
+    DerInfo { label: "ZL1", place: Tb(68), import_refs: &[], reach_refs: &[] },
+    DerInfo { label: "ZL2", place: Tb(69), import_refs: &[], reach_refs: &[] },
+    DerInfo { label: "ZL3", place: Tb(70), import_refs: &[], reach_refs: &[] },
+    DerInfo { label: "ZL4", place: Tb(71), import_refs: &[], reach_refs: &[] },
+    DerInfo { label: "ZL5", place: Tb(72), import_refs: &[], reach_refs: &[] },
+    DerInfo { label: "ZL6", place: Tb(73), import_refs: &[], reach_refs: &[] },
+    DerInfo { label: "ZL7", place: Tb(74), import_refs: &[], reach_refs: &[] },
+    DerInfo { label: "ZX0", place: Tb(75), import_refs: &[], reach_refs: &[] },
+    DerInfo { label: "ZX1", place: Tb(76), import_refs: &[], reach_refs: &[] },
+    DerInfo { label: "ZX2", place: Tb(77), import_refs: &[], reach_refs: &[] },
+    DerInfo { label: "ZX3", place: Tb(78), import_refs: &[], reach_refs: &[] },
+    DerInfo { label: "ZX4", place: Tb(79), import_refs: &[], reach_refs: &[] },
+    DerInfo { label: "ZV0", place: Tb(80), import_refs: &[], reach_refs: &[] },
+    DerInfo { label: "ZV1", place: Tb(81), import_refs: &[], reach_refs: &[] },
+    DerInfo { label: "ZV2", place: Tb(82), import_refs: &[], reach_refs: &[] },
+    DerInfo { label: "ZW0", place: Tb(83), import_refs: &[], reach_refs: &[] },
+    DerInfo { label: "ZW1", place: Tb(84), import_refs: &[], reach_refs: &[] },
+    DerInfo { label: "ZW2", place: Tb(85), import_refs: &[], reach_refs: &[] },
+    DerInfo { label: "ZW3", place: Tb(86), import_refs: &[], reach_refs: &[] },
+    DerInfo { label: "ZW4", place: Tb(87), import_refs: &[], reach_refs: &[] },
+    DerInfo { label: "Z0", place: Tb(88), import_refs: &[], reach_refs: &[] },
+    DerInfo { label: "Z1", place: Tb(89), import_refs: &[], reach_refs: &[] },
+    DerInfo { label: "Z2", place: Tb(90), import_refs: &[], reach_refs: &[] },
+    DerInfo { label: "Z3", place: Tb(91), import_refs: &[], reach_refs: &[] },
+    DerInfo { label: "ZS0", place: Tb(92), import_refs: &[], reach_refs: &[] },
+    DerInfo { label: "ZS1", place: Tb(93), import_refs: &[], reach_refs: &[] },
+    DerInfo { label: "ZS2", place: Tb(94), import_refs: &[], reach_refs: &[] },
+    DerInfo { label: "ZS3", place: Tb(95), import_refs: &[], reach_refs: &[] },
 ];
 
 pub fn der_handle(h: usize) -> Handle {
@@ -867,6 +1151,35 @@ pub fn der_handle(h: usize) -> Handle {
         G_DUMMY => handle::<G<ts_rs::Dummy>>(l),
         H_DUMMY => handle::<H<ts_rs::Dummy>>(l),
         K2_DUMMY => handle::<K2<ts_rs::Dummy>>(l),
+        ZL0_ => handle::<ZL0>(l),
+        ZL1_ => handle::<ZL1>(l),
+        ZL2_ => handle::<ZL2>(l),
+        ZL3_ => handle::<ZL3>(l),
+        ZL4_ => handle::<ZL4>(l),
+        ZL5_ => handle::<ZL5>(l),
+        ZL6_ => handle::<ZL6>(l),
+        ZL7_ => handle::<ZL7>(l),
+        ZX0_ => handle::<ZX0>(l),
+        ZX1_ => handle::<ZX1>(l),
+        ZX2_ => handle::<ZX2>(l),
+        ZX3_ => handle::<ZX3>(l),
+        ZX4_ => handle::<ZX4>(l),
+        ZV0_ => handle::<ZV0>(l),
+        ZV1_ => handle::<ZV1>(l),
+        ZV2_ => handle::<ZV2>(l),
+        ZW0_ => handle::<ZW0>(l),
+        ZW1_ => handle::<ZW1>(l),
+        ZW2_ => handle::<ZW2>(l),
+        ZW3_ => handle::<ZW3>(l),
+        ZW4_ => handle::<ZW4>(l),
+        Z0_ => handle::<Z0>(l),
+        Z1_ => handle::<Z1>(l),
+        Z2_ => handle::<Z2>(l),
+        Z3_ => handle::<Z3>(l),
+        ZS0_ => handle::<ZS0>(l),
+        ZS1_ => handle::<ZS1>(l),
+        ZS2_ => handle::<ZS2>(l),
+        ZS3_ => handle::<ZS3>(l),
         _ => panic!("no such derived handle {h}"),
     }
 }
